@@ -41,7 +41,7 @@ try:
     res["demo_exit_clean"], res["demo_exit_changed"] = rc0, rc1
     os.remove(wt / "demo_seed.py")
     if not skip_suite:
-        rc, out = sh("/venv/bin/python -m pytest -q -p no:cacheprovider --timeout=900 2>&1 | tail -15", cwd=wt)
+        rc, out = sh("OMP_NUM_THREADS=4 /venv/bin/python -m pytest -q -p no:cacheprovider --timeout=900 2>&1 | tail -15", cwd=wt)
         fails = [l for l in out.splitlines() if l.startswith("FAILED") or l.startswith("ERROR")]
         res["suite_tail"] = out.splitlines()[-1] if out.splitlines() else ""
         res["suite_failures"] = fails
@@ -49,13 +49,14 @@ try:
     res["checks"] = {}
     for c in checks:
         t = time.time()
-        env = dict(os.environ, VERIF_REPO=str(wt))
+        env = dict(os.environ, VERIF_REPO=str(wt), VERIF_EVIDENCE_DIR=f"/tmp/confirm-evid-{sid}")
         rc, out = sh(f"./check {c} --tier quick", cwd="/verif", env=env, timeout=5400)
         vio = [l for l in out.splitlines() if l.startswith("VIOLATION") or l.strip().startswith("signature:")]
         res["checks"][c] = {"exit": rc, "wall_s": round(time.time() - t, 1), "violation_lines": vio[:12]}
     res["caught_by"] = [c for c, r in res["checks"].items() if r["exit"] == 1]
 finally:
     subprocess.run(f"git -C /repo worktree remove --force {wt}", shell=True, capture_output=True)
+    shutil.rmtree(f"/tmp/confirm-evid-{sid}", ignore_errors=True)
 dst.mkdir(parents=True, exist_ok=True)
 shutil.copy(src / "patch.diff", dst / "patch.diff")
 shutil.copy(src / "demo.py", dst / "demo.py")
